@@ -10,7 +10,7 @@ def main(ctx, replay):
     rng = random.Random(ctx.seed)
     info = C.prologue(ctx)
     if info["hbin"] is None:
-        raise RuntimeError("harness build failed:\n" + info.get("go_log", ""))
+        raise C.HarnessBuildFailed(info.get("go_log", ""))
     frag = c12rl.run(ctx, info, rng)
     # stand-alone: the obligations are the theorems of Properties/C12rl.v (checked inside run)
     info["theorems"] = frag.get("rl_theorems", [])
